@@ -17,8 +17,8 @@ func init() {
 		decided: "R1 the decision table of Limit.ServeHTTP (up to three path limits, every set of matching entries, body present or not): the next handler runs once with the body wrapped by a reader carrying the first matching entry's limit, or untouched; the limit list is sorted longest-path-first before it is stored; " +
 			"R2 the decision table of maxBytesReader.Read (allowance 0-3, buffer 0-5, remembered error, every source result): the remembered error without touching the source, (0, nil) for an empty buffer, otherwise one read of min(len(p), remaining+1) bytes passed through within the allowance and cut to it with the too-large sentinel beyond; " +
 			"R3 the too-large sentinel is tested with errors.Is wherever the error crossed foreign code, and every body-forwarding handler (proxy: two sites, fastcgi) maps it to 413; " +
-			"R4 each shared listener setting comes out as the smallest value among the sites that set it, and as the default (header limit: untouched) exactly when none does — the full input/output table of both merge functions for every group of up to three sites. Since round 4: R1 SortPathLimits as a table (sort.Sort modelled by the type's own methods). R5 parseLimits stores every body limit under exactly its written path and setupTimeouts keeps the timeouts of every timeouts block. Since round 5: R3's proxy part along the proxy traces (an over-limit body answers 413); the reader's allowance field is identified by what Read writes. Since round 6: R5 with two limits directives in one site.",
-		notDecided: "allowances and buffers beyond the enumerated small sizes (the reader's arithmetic is the same for all); groups of more than three co-hosted sites (the merge is a fold of the step the table covers); whether an explicit `timeouts none` should win the merge (recorded for triage, not asserted).",
+			"R4 each shared listener setting comes out as the smallest value among the sites that set it, and as the default (header limit: untouched) exactly when none does — the full input/output table of both merge functions for every group of up to three sites. Since round 4: R1 SortPathLimits as a table (sort.Sort modelled by the type's own methods). R5 parseLimits stores every body limit under exactly its written path and setupTimeouts keeps the timeouts of every timeouts block. Since round 5: R3's proxy part along the proxy traces (an over-limit body answers 413); the reader's allowance field is identified by what Read writes. Since round 6: R5 with two limits directives in one site. Since round 7: R2 also for the two largest representable allowances; R5 parseSize refuses byte counts beyond 63 bits, scopes are stored cleaned; R4 `timeouts none` is the least strict setting.",
+		notDecided: "allowances and buffers beyond the enumerated small sizes (the reader's arithmetic is the same for all); groups of more than three co-hosted sites (the merge is a fold of the step the table covers); the merge of more than two `none` settings beyond the enumerated groups.",
 	})
 }
 
